@@ -32,6 +32,8 @@ def h10(S, max_m=2, extra_max=2, queues=1, max_limit=3, dmax_us=2000, zero=False
     async def main(loop):
         w = World(backend=backend)
         await w.open(queues=qnames, record=True)
+        from harness.common import observe_consumers
+        out["consumer_log"] = observe_consumers(w.broker)
         r = Router()
         for qn in qnames:
             @r.actor(name="job_" + qn, queue=qn, converter=BasicConverter)
@@ -76,6 +78,8 @@ def h10(S, max_m=2, extra_max=2, queues=1, max_limit=3, dmax_us=2000, zero=False
         names = place_names(out["places"], f"m{i}")
         if names == ["processing"]:
             S.tag("left_in_flight", "never-executed")
+            handed = any(e[0] == "handed-to-runner" and e[1] == f"m{i}" for e in out["consumer_log"])
+            S.tag("stuck_message_reached_the_runner", handed)
         S.check("unprocessed-message-still-waiting", names == ["waiting"], info=f"m{i}: {names}")
         if names == ["waiting"]:
             msg = out["places"][f"m{i}"][0][1]
